@@ -13,6 +13,8 @@ def make_registry(fortran=False):
     freg = register_function(freg, "<func>two", ("x",), result_names=("r1", "r2"),
                              result_kinds=(Scalar(is_real_valued=True), Scalar(is_real_valued=True)))
     freg = register_function(freg, "<func>note", ("x",), result_names=(), result_kinds=())
+    freg = register_function(freg, "<func>zero", (), result_names=("result",),
+                             result_kinds=(Scalar(is_real_valued=True),))
     if fortran:
         import dagrt.codegen.fortran as f
         freg = freg.register_codegen("<func>f", "fortran", f.CallCode("""
@@ -27,6 +29,9 @@ def make_registry(fortran=False):
             """))
         freg = freg.register_codegen("<func>note", "fortran", f.CallCode("""
             continue
+            """))
+        freg = freg.register_codegen("<func>zero", "fortran", f.CallCode("""
+            ${result} = 3
             """))
     return freg
 
